@@ -1,0 +1,23 @@
+//go:build verif
+
+package protocol
+
+import (
+	"github.com/enfein/mieru/v3/pkg/appctl/appctlpb"
+	"github.com/enfein/mieru/v3/pkg/common"
+)
+
+// Exports for the external verification harness (differential test of the source translator). Add-only.
+
+// VerifXLLowBits calls lowBits; it panics for a negative n exactly as lowBits does.
+func VerifXLLowBits(n int) uint64 { return lowBits(n) }
+
+// VerifXLRotateLowEntropyMask calls rotateLowEntropyMask.
+func VerifXLRotateLowEntropyMask(initialMask uint64, rotation appctlpb.LowEntropyMaskRotation, chunkIndex int) uint64 {
+	return rotateLowEntropyMask(initialMask, rotation, chunkIndex)
+}
+
+// VerifXLMaxFragmentSizeInternal calls maxFragmentSizeInternal.
+func VerifXLMaxFragmentSizeInternal(mtu int, transport common.TransportProtocol) int {
+	return maxFragmentSizeInternal(mtu, transport)
+}
